@@ -277,7 +277,7 @@ def exit_rule(chk, db, floor=6):
         chk.analysis_broken("EXIT: only %d early exits of the search functions found (floor %d)" % (n, floor))
 
 
-META_EXTRA = 'NULFREE; pointer-formation obligations and counting-loop reachability in BOUND; W-TRAITS (char_traits vs std::char_traits at boundary characters).'
+META_EXTRA = 'NULFREE; EXIT; pointer-formation obligations and counting-loop reachability in BOUND; W-TRAITS (char_traits vs std::char_traits at boundary characters); PARAM.'
 META = (META[0] + " " + META_EXTRA, META[1])
 
 
